@@ -143,7 +143,15 @@ func (r *Rule) Render() string {
 	return sb.String()
 }
 
-func (rs *RuleSet) Render() string {
+// tmpPlaceholder stands for this process' private temporary directory inside generated cases,
+// so that a saved case does not depend on the process that generated it.
+const tmpPlaceholder = "${VERIF_TMP}"
+
+func expandTmp(s string) string { return strings.ReplaceAll(s, tmpPlaceholder, privateTmp) }
+
+func (rs *RuleSet) Render() string { return expandTmp(rs.render()) }
+
+func (rs *RuleSet) render() string {
 	var sb strings.Builder
 	for _, l := range rs.Pre {
 		sb.WriteString(l)
